@@ -29,7 +29,10 @@ RULE = (
     "the whole root of a tree target replaced by a plain cached/uncached file, empty directory), "
     "0-2 dangling symlinks at target / extra paths (also workspace symlinks whose cache object was "
     "dropped), an optional pre-step that hashes the workspace through the same State for a legacy "
-    "md5-dos2unix store with LF/CRLF twin contents (one cached, one an uncached edit), "
+    "md5-dos2unix store with LF/CRLF twin contents (one cached, one an uncached edit), an optional "
+    "pre-step that stages the workspace through the same State (dry-run build) on a harness-owned "
+    "LocalFileSystem subclass which lets the user save uncached content into an already-read file "
+    "of the batch (before State.save_many runs; deterministic, no threads), "
     "optionally target objects dropped from the cache, configured link types, relink on/off, state "
     "on/off and prompt None / always-decline (plus a small accepting arm that only checks that no "
     "PromptError is raised), force=False. Oracle: byte snapshots of the workspace before/after; every "
@@ -147,7 +150,7 @@ def cases(draw):
     if target_kind == "tree":
         case["target"] = draw(gen.trees(max_files=6, max_depth=3, content=_content()))
         # the whole root replaced by a plain file (file -> directory change of the root at checkout)
-        case["root_file"] = draw(st.sampled_from([None] * 15 + [0, 1]))
+        case["root_file"] = draw(st.sampled_from([None] * 12 + [0, 1, 2]))
         # unreadable entries: dangling symlinks at new paths ("d": directory index, "name") or sitting
         # at a target path ("t": index into the target's keys)
         dang = st.one_of(
